@@ -17,7 +17,9 @@ RULE = ("a case is one session (one or two execute() calls on the same Executor/
         "the collection resolves for it (primary dotted name, alias, default-task / default-sub-collection shortcut, "
         "underscore or dash spelling; consecutive calls biased to the same task under another name / the same, parent or "
         "child namespace), sometimes no name (the root default), pre/post tasks living in other sub-collections, task "
-        "objects bound in two places, pre/post task objects the collection does not hold, bodies that record the deep view of context.config and then perform generated "
+        "objects bound in two places, collection OBJECTS mounted under a second parent and/or name (45% of sessions; tasks "
+        "run through both paths, in both orders), delete / re-create scripts at depth 2-3 below one section spread over "
+        "two tasks, the collections' own configuration() compared before/after the session, pre/post task objects the collection does not hold, bodies that record the deep view of context.config and then perform generated "
         "writes / deletions / nested edits / dict-protocol mutations and change os.environ for the following tasks; "
         "oracle per executed task: view = journal of all earlier tasks' edits replayed over the merge of the levels with "
         "collection := deep merge of the settings along ITS OWN namespace path (outer wins; the path of the name used, for "
@@ -137,13 +139,58 @@ def default_tag(node):
     return None
 
 
-def walk(node, prefix=(), cfgs=()):
-    """yields (node, dotted-path components, settings along the path root..node)"""
+def real_nodes(node, prefix=()):
+    """every collection OBJECT once (the place it is defined), with its defining path"""
     here = prefix + ((node["name"],) if node["name"] else ())
+    yield node, here
+    for s in node["subs"]:
+        yield from real_nodes(s, here)
+
+
+def ensure_ids(tree):
+    for n, here in real_nodes(tree):
+        n.setdefault("id", ".".join(here))
+        n.setdefault("mounts", [])
+    return {n["id"]: n for n, _ in real_nodes(tree)}
+
+
+def walk(node, prefix=(), cfgs=(), byid=None, name=False):
+    """yields (node, dotted-path components, settings along the path root..node) for EVERY namespace path: a
+    collection object mounted under several parents / names (`mounts`) is visited once per path"""
+    if byid is None:
+        byid = ensure_ids(node)
+    nm = node["name"] if name is False else name
+    here = prefix + ((nm,) if nm else ())
     chain = cfgs + (node["cfg"],)
     yield node, here, chain
     for s in node["subs"]:
-        yield from walk(s, here, chain)
+        yield from walk(s, here, chain, byid)
+    for m in node.get("mounts", []):
+        yield from walk(byid[m["id"]], here, chain, byid, m["name"])
+
+
+def add_mounts(rng, tree):
+    """mount existing collection objects a second time: under another parent (the root, a sibling, deeper) and/or
+    under another name - never inside themselves"""
+    byid = ensure_ids(tree)
+    for _ in range(rng.choice([1, 1, 2])):
+        cands = [n for n in byid.values() if n["name"]]
+        if not cands:
+            return
+        src = rng.choice(cands)
+        inside = {n["id"] for n, _, _ in walk(src, byid=byid)}
+        parents = [p for p in byid.values() if p["id"] not in inside]
+        if not parents:
+            continue
+        par = tree if rng.random() < 0.4 else rng.choice(parents)
+        taken = {x["name"] for x in par["subs"]} | {m["name"] for m in par["mounts"]} | {t["name"] for t in par["tasks"]}
+        nm = src["name"]
+        if nm in taken or rng.random() < 0.35:
+            free = [x for x in COLL_NAMES + ["mnt_b", "sh"] if x not in taken]
+            if not free:
+                continue
+            nm = rng.choice(free)
+        par["mounts"].append({"id": src["id"], "name": nm})
 
 
 def spellings(rng_or_none, comps):
@@ -189,6 +236,8 @@ def gen_session(rng, prepost=0.3):
     bodies = {}
     tree = gen_node(rng, None, 1, [], bodies, [rng.randint(0, 9)])
     tags = sorted(bodies)
+    if rng.random() < 0.45:
+        add_mounts(rng, tree)
     if rng.random() < 0.25:
         # the same task object bound a second time, in another collection under another name
         tag = rng.choice(tags)
@@ -224,7 +273,7 @@ def gen_session(rng, prepost=0.3):
         req, prev = [], None
         for _ in range(rng.randint(1, 5)):
             r = rng.random()
-            if prev is not None and r < 0.25:
+            if prev is not None and (r < 0.25 or (len(bindings[prev]) > 1 and r < 0.5)):
                 tag = prev
             elif prev is not None and r < 0.6:
                 tag = related(prev)
@@ -240,7 +289,26 @@ def gen_session(rng, prepost=0.3):
         for _ in range(rng.randint(1, 3)):
             p = rng.choice([k for k, v in c06.SHAPE.items() if v == "leaf" and k[-1] != "d" and not c06.in_mods_only(k)])
             env0["_".join(p).upper()] = rng.choice(["0", "1", "7", "42"])
-    return {"kind": "session", "v": 2, "defaults": dict(copy.deepcopy(DEFAULTS), **c06.tree(rng, dens=0.4)),
+    defaults = dict(copy.deepcopy(DEFAULTS), **c06.tree(rng, dens=0.4))
+    flat = [resolve[n][0] for req in calls for n in req]
+    if len(flat) >= 2 and rng.random() < 0.3:
+        # journal family across tasks: an early task deletes settings at several depths below one top-level section,
+        # a later task re-creates / overwrites some of them, the tasks after that read
+        deep = [k for k, v in c06.SHAPE.items() if v == "leaf" and len(k) >= 2 and not c06.in_mods_only(k)]
+        top = rng.choice(["a", "b"])
+        below = [k for k in deep if k[0] == top]
+        picks = rng.sample(below, min(len(below), rng.randint(2, 4)))
+        for k in picks:
+            cfglib.set_total(defaults, list(k), c06.leaf(rng, k))
+        i = rng.randrange(len(flat) - 1)
+        j = rng.randrange(i + 1, len(flat))
+        dels = [{"op": rng.choice(["DI", "DA"]), "path": [[x, rng.random() < 0.4] for x in k[:-1]], "k": k[-1]} for k in picks]
+        sets = [{"op": "SI", "path": [[x, False] for x in k[:-1]], "k": k[-1], "v": c06.leaf(rng, k)}
+                for k in rng.sample(picks, rng.randint(1, len(picks)))]
+        if flat[i] != flat[j]:
+            bodies[flat[i]]["ops"] = bodies[flat[i]]["ops"] + dels
+            bodies[flat[j]]["ops"] = sets + bodies[flat[j]]["ops"]
+    return {"kind": "session", "v": 2, "defaults": defaults,
             "overrides": c06.tree(rng, dens=0.15), "tree": tree, "bodies": bodies, "calls": calls, "env0": env0}
 
 
@@ -348,17 +416,26 @@ def run_session(case):
         task_objs[tag] = Task(mk(tag), name=info[tag]["name"] if tag in info else tag, pre=[task_objs[p] for p in spec["pre"]],
                               post=[task_objs[p] for p in spec["post"]])
 
+    byid = ensure_ids(case["tree"])
+    built = {}
+
     def build(node):
+        if node["id"] in built:
+            return built[node["id"]]
         c = Collection(node["name"]) if node["name"] else Collection()
+        built[node["id"]] = c
         c.configure(copy.deepcopy(node["cfg"]))
         for t in node["tasks"]:
             c.add_task(task_objs[t["tag"]], name=t["name"], aliases=tuple(t["aliases"]),
                        default=(t["name"] == node["default_task"]))
-        for s in node["subs"]:
-            c.add_collection(build(s), default=(s["name"] == node["default_sub"]))
+        for sub in node["subs"]:
+            c.add_collection(build(sub), default=(sub["name"] == node["default_sub"]))
+        for m in node["mounts"]:
+            c.add_collection(build(byid[m["id"]]), name=m["name"])
         return c
 
     root = build(case["tree"])
+    stored = {i: cfglib.canon(c.configuration()) for i, c in built.items()}
     # the names computed by construction must be names the collection resolves to that very task
     bad = [n for n, (tag, _) in case["_resolve"].items() if _lookup(root, n) is not task_objs[tag]]
     cfg = Config(defaults=copy.deepcopy(case["defaults"]), overrides=copy.deepcopy(case["overrides"]), lazy=True,
@@ -375,7 +452,9 @@ def run_session(case):
             except Exception as e:  # anything escaping execute() comes from configuration handling (bodies catch their own)
                 escaped = cfglib.errname(e) + " " + repr(e)[:200]
                 break
-    return record, escaped
+    changed = ["collection %r: own settings were %s, are %s after the session" % (i, stored[i], cfglib.canon(c.configuration()))
+               for i, c in built.items() if cfglib.canon(c.configuration()) != stored[i]]
+    return record, escaped, changed
 
 
 def _lookup(root, name):
@@ -393,7 +472,7 @@ def ns_of(chain):
     return m
 
 
-def judge(case, record, escaped):
+def judge(case, record, escaped, changed=()):
     """ORACLE.  Returns (why, signature, model ops, impl rows) - why None when the property holds."""
     exp = expansion(case)
     ops = [{"o": 0, "op": "NEW", "defaults": case["defaults"], "overrides": case["overrides"]}]
@@ -447,13 +526,15 @@ def judge(case, record, escaped):
         return "execute() failed inside configuration handling: %s" % escaped, "other", ops, rows
     if len(record) != len(exp):
         return "only %d of %d tasks executed" % (len(record), len(exp)), "other", ops, rows
+    if changed:
+        return "the session changed settings stored in the namespace: " + "; ".join(changed[:2]), "other", ops, rows
     return None, None, ops, rows
 
 
 def check(case):
     case = prepare(case)
-    record, escaped = run_session(case)
-    res = judge(case, record, escaped) + (record,)
+    record, escaped, changed = run_session(case)
+    res = judge(case, record, escaped, changed) + (record,)
     for k in [k for k in case if k.startswith("_")]:
         del case[k]
     return res
@@ -473,7 +554,7 @@ def run(ctx):
     rng = ctx.rng
     drv = LeanDriver("drv_config")
     lines, rows_all, ran = [], [], []
-    for i in range(ctx.n(3500, 45000)):
+    for i in range(ctx.n(3000, 45000)):
         case = gen_session(rng, prepost=0.3 if i % 2 else 0.0)
         why, sig, ops, rows, record = check(case)
         bindings, res2, names, coll = index_tree(case["tree"])
@@ -486,6 +567,19 @@ def run(ctx):
                 out.hist["prepost_not_held_by_collection"] += (o not in bindings)
                 out.hist["prepost_bound_in_several_places"] += (len(bindings.get(o, [])) > 1)
         out.hist["tasks_bound_in_several_places"] += sum(1 for t in bindings if len(bindings[t]) > 1)
+        nm = sum(len(n.get("mounts", [])) for n, _ in real_nodes(case["tree"]))
+        out.hist["sessions_with_collection_mounted_twice"] += nm > 0
+        if nm:
+            used = {}
+            for req in case["calls"]:
+                for n in req:
+                    t, ch = res2[n]
+                    if len(bindings[t]) > 1:
+                        used.setdefault(t, []).append(cfglib.canon({"p": [cfglib.canon(x) for x in ch]}))
+            out.hist["calls_to_tasks_reachable_by_several_paths"] += sum(len(v) for v in used.values())
+            out.hist["sessions_running_one_task_through_two_paths"] += any(len(set(v)) > 1 for v in used.values())
+            out.hist["sessions_repeating_a_path_after_the_other"] += any(
+                any(v[i] != v[i + 1] and v[i] in v[i + 2:] for i in range(len(v) - 2)) for v in used.values())
         tags = [r[0] for r in record]
         edits = [1 for r in record for op, res, v in r[3] if op["op"] in cfglib.MUTATORS and not res.startswith("E:")]
         out.case(case, len({coll[t] for t in tags}) >= 2 and bool(edits))
